@@ -158,7 +158,7 @@ func EvalTwice(f *Forest, src string, res []fhir.Resource, copts []fhirpath.Comp
 // state was changed by the evaluations in between) and crossDiffers (the reused expression disagrees on B with a fresh
 // one: something of the first evaluation - variable values, the resource, a cached descriptor - was kept).
 func EvalCross(f *Forest, src string, resA []fhir.Resource, optsA func() []fhirpath.EvaluateOption,
-	resB []fhir.Resource, optsB func() []fhirpath.EvaluateOption) (Outcome, bool, bool) {
+	resB []fhir.Resource, optsB func() []fhirpath.EvaluateOption) (Outcome, Outcome, bool, bool) {
 	var outA, outA2, outB, outBfresh Outcome
 	rep := SafeRetry(func() {
 		outA, outA2, outB, outBfresh = nil, nil, nil, nil
@@ -186,12 +186,12 @@ func EvalCross(f *Forest, src string, resA []fhir.Resource, optsA func() []fhirp
 		outBfresh = run(fresh, resB, optsB)
 	})
 	if rep.Timeout {
-		return TimeoutOutcome(), false, false
+		return TimeoutOutcome(), TimeoutOutcome(), false, false
 	}
 	if rep.Panic != "" {
-		return PanicOutcome(rep), false, false
+		return PanicOutcome(rep), PanicOutcome(rep), false, false
 	}
-	return outA, !SameOutcome(outA, outA2), !SameOutcome(outB, outBfresh)
+	return outA, outB, !SameOutcome(outA, outA2), !SameOutcome(outB, outBfresh)
 }
 
 // SameOutcome compares two projected outcomes structurally (through their JSON form).
